@@ -12,6 +12,9 @@
 (* configuration c: c.tr sequence of tracers [cat, id, unit, nl, name, scale2] *)
 (* (cat/unit/name as character sequences; the table scale is 2^scale2),       *)
 (* c.ni, c.nj, c.i0, c.j0, c.nt ; tau0 of block t is c.tau + 24 (t - 1).       *)
+(* tr.off is the category offset of diaginfo; tr.intab tells whether the tracer *)
+(* table has a line for off + id (if not, the reader names the variable after  *)
+(* the bare tracer id and must not scale it: scale 1, unit of the data header). *)
 EXTENDS CamxLayout
 
 S(chars, n) == [t |-> "s", v |-> chars, n |-> n]
